@@ -50,7 +50,7 @@ CLAIMED: dict[str, tuple[str, str, str, str]] = {
         "and the constraint/marker round trips (C15/C13) are hypotheses of `dep_roundtrip_partial`; the whole-URL inverse and between-token "
         "whitespace are tied by correspondence (every run: parse dumps, printed texts, re-parse, reference acceptance, probe versions and "
         "environments on ~5k generated dependencies). Counterexample theorems show where the code itself breaks the statement.",
-        TB + "Partial: proved with no hypothesis about recogniser, constraint parser/printer (C15) or marker parser/printer (C13, C07): the recogniser on printed text; the round trip on registry dependencies with `*`, plain ranges and single versions (identical constraint), `!=V` (equivalent constraint) and markers of C13's comparison-operator domain (validate-equal); the round trip on URL dependencies without sub-directory. Open: VCS dispatch (whole-URL inverse of the git grammar), URL sub-directory and wheels, wildcard and disjunction spellings, in_extras, markers outside the domain; side conditions NoComment (false without it: known finding) and MarkerEnds. urllib, the git-URL regex cascade beyond the restricted grammar and file-system probes are outside the model (`unmodelled`, counted). A call-history stream renders siblings that differ in one loosely-compared field back to back. Four known findings; three defects fixed in /repo.",
+        TB + "Partial: proved with no hypothesis about recogniser, constraint parser/printer (C15) or marker parser/printer (C13, C07): the recogniser on printed text; the round trip on registry dependencies with `*`, plain ranges and single versions (identical constraint), `!=V` (equivalent constraint) and markers of C13's comparison-operator domain (validate-equal); the round trip on URL dependencies without sub-directory. Since then also: VCS dependencies in the restricted grammar's normal form through the whole-URL inverse `giturl_inverse_full`, URL sub-directory and wheel URLs, wildcard spellings, one extra; for several extras or an extra plus an own marker the printing and setter halves (`toPep508_membership_not_by_text`, `setMarker_records_membership`) — the composition through _compact_markers / convert_markers is open (`dep_roundtrip_in_extras_full_statement`); disjunction constraints are provably not re-parsable (`disjunction_not_reparsable`, outside the domain); side condition NoComment (false without it: known finding). urllib, the git-URL regex cascade beyond the restricted grammar and file-system probes are outside the model (`unmodelled`, counted). A call-history stream renders siblings that differ in one loosely-compared field back to back. Four known findings; three defects fixed in /repo.",
         "DESIGN.md §4 C10",
     ),
     "C11": (
@@ -119,7 +119,7 @@ CLAIMED: dict[str, tuple[str, str, str, str]] = {
         "markers, several extras, equal specifiers), runs the real Factory -> Metadata.from_package pipeline, compares selection, Requires-Dist text, marker tree, "
         "truth vectors, Requires-Python and Provides-Extra with the model, and lets the reference (packaging) evaluate every Requires-Dist "
         "line on candidate versions x environments x extras sets and Requires-Python on the interpreter series.",
-        TB + "Partial: C13's print/parse fact is discharged on the full comparison-operator domain (`requiresDist_faithful_domain`); what remains as hypotheses is C07's LeafSpec on that domain and the domain conditions on the declared texts; PEP 621 selection is unconditional since repo fix ad4e259 (`pep621_entry_selected_iff`; the obligation exposed that `foo ; extra != \"x\"` vanished from Requires-Dist); version-specifier equivalence is C15's; set-level faithfulness of Requires-Python is a stated def checked by the oracle. Known findings: single-version-precision-lt-3 (shared with C11), optional-dependency-with-own-extra-clause-loses-membership.",
+        TB + "Partial: C13's print/parse fact is discharged on the full comparison-operator domain (`requiresDist_faithful_domain`) and C07's LeafSpec on the FullLeafLLs domain (`requiresDist_faithful_domain_only`: domain conditions only); seeded classes C02-4 / C14-4 are named by `extrapy_keeps_membership_clause` / `multiple_constraints_both_kept`; PEP 621 selection is unconditional since repo fix ad4e259 (`pep621_entry_selected_iff`; the obligation exposed that `foo ; extra != \"x\"` vanished from Requires-Dist); version-specifier equivalence is C15's; set-level faithfulness of Requires-Python is a stated def checked by the oracle. Known findings: single-version-precision-lt-3 (shared with C11), optional-dependency-with-own-extra-clause-loses-membership.",
         "DESIGN.md §4 C02",
     ),
     "C03": (
@@ -135,7 +135,7 @@ CLAIMED: dict[str, tuple[str, str, str, str]] = {
     "C04": (
         "Lean 4 theorems: parsed constraint membership = formalised packaging specifier semantics, per operator and for sets + differential correspondence (model vs code, spec vs packaging)",
         "Machine-checked proof that membership in the model of the parsed constraint equals the formalised reference semantics (Spec/Specifier.lean, the range-based packaging 26 algorithm): per operator on candidates regular for the literal; every operator but != with final literals on EVERY candidate (incl. ~=, ==V.*), !=V.* on every candidate through the real union `allows`; the exclusive-comparison rules; sets of any length of single-range clauses with no regularity between literals (`>=1.2, ==1.2.*`), and sets with any operators in the regular setting; the documented ranges of ^, ~, bare versions and ||. Every run compares model vs real parse_constraint().allows() and spec vs packaging on ~230k pairs.",
-        TB + "Comma sets without != : membership = reference with no hypothesis beyond the property's guard (all literals final: every candidate incl. the literals' pre/post/dev/local siblings; otherwise candidate regular for each literal); the complement is exactly the class sibling-of-another-literal (witness proved and replayed). EVERY comma set (== mixed with !=, !=V.* and all range operators): member-by-member membership = reference on candidates regular for each literal, nothing asked between literals (`guarded_set_membership_eq_ref`, by a per-probe version of the union intersect walk); residual side conditions: != literals without local label and the static NoPoint (no >=V,<=V point; empirically not a boundary: 17 615 probing pairs on the real code without deviation); the conclusion is on the member-by-member answer, and on the real `allows` when the result is not a union. Reference = packaging 26.3 in a subprocess. Three in-guard divergence classes are known findings (by design of the range algebra).",
+        TB + "Comma sets without != : membership = reference with no hypothesis beyond the property's guard (all literals final: every candidate incl. the literals' pre/post/dev/local siblings; otherwise candidate regular for each literal); the complement is exactly the class sibling-of-another-literal (witness proved and replayed). EVERY comma set (== mixed with !=, !=V.* and all range operators): member-by-member membership = reference on candidates regular for each literal, nothing asked between literals (`guarded_set_membership_eq_ref`, by a per-probe version of the union intersect walk); residual side conditions: != literals without local label and, only for sets with a != / !=V.* clause, the static NoPoint (no >=V,<=V point) — a restriction of the proof, not of the model: a decided NoPoint-violating set agrees with the reference and 17 615 probing pairs on the real code show no deviation; the conclusion is on the member-by-member answer, and on the real `allows` when the result is not a union. Reference = packaging 26.3 in a subprocess. Three in-guard divergence classes are known findings (by design of the range algebra).",
         "DESIGN.md §4 C04",
     ),
     "C05": (
@@ -148,7 +148,7 @@ CLAIMED: dict[str, tuple[str, str, str, str]] = {
         "the real `allows` (`C05_regular_partial`), incl. the difference merge walks and `_inverted`. Outside that setting the union-level "
         "results stay `_partial` (full statements kept as `def …_full_statement`). The model mirrors the code branch by branch and "
         "is compared structurally (text, dump, flags, membership on regular AND irregular probes) on every run.",
-        TB + "list.sort modelled as stable insertion sort; one known finding (Version ∩ range with local lower bound) proved as a counterexample theorem. Beyond the regular setting: intersect of non-union operands is exact on ALL versions for half-open ranges (the shape of ^, ~, ~=, ==V.*, >=V,<W) and for members over final versions, and at every probe regular for exclusive-lower / inclusive-upper ends (counterexample for the complement); union-level operations are exact in the regular setting; beyond it VersionUnion.of and union ∩ are exact at every probe fine for the end shapes and on all versions for half-open members with unstable lower ends (every ==V.* disjunction); union ∪ too (`union_at_probe`); the intersect walk equals the pairwise non-empty member intersections in order for members of ANY lengths (`intersect_members_eq_pairwise`: the equation the seeded count-threshold change C05-4 breaks); difference and Version members inside unions remain under the regular setting; for stable adjacent ends the expectation is false: `^2 || ^3` merges to `>=2,<4` and admits 3.dev0 (counterexample_union_of_adjacent_gap = the listed class adjacent-union-gap).",
+        TB + "list.sort modelled as stable insertion sort; one known finding (Version ∩ range with local lower bound) proved as a counterexample theorem. Beyond the regular setting: intersect of non-union operands is exact on ALL versions for half-open ranges (the shape of ^, ~, ~=, ==V.*, >=V,<W) and for members over final versions, and at every probe regular for exclusive-lower / inclusive-upper ends (counterexample for the complement); union-level operations are exact in the regular setting; beyond it VersionUnion.of and union ∩ are exact at every probe fine for the end shapes and on all versions for half-open members with unstable lower ends (every ==V.* disjunction); union ∪ too (`union_at_probe`); the intersect walk equals the pairwise non-empty member intersections in order for members of ANY lengths (`intersect_members_eq_pairwise`: the equation the seeded count-threshold change C05-4 breaks); range − range is exact at every probe on half-open, unstable-ended, non-local ranges (`halfopen_dev_difference_exact`, class closed under difference; `counterexample_difference_stable_end` marks the boundary: the adjacent-union-gap family on the difference path); range − union, union − anything and Version members inside unions remain under the regular setting; for stable adjacent ends the expectation is false: `^2 || ^3` merges to `>=2,<4` and admits 3.dev0 (counterexample_union_of_adjacent_gap = the listed class adjacent-union-gap).",
         "DESIGN.md §4 C05",
     ),
     "C09": (
@@ -203,7 +203,7 @@ CLAIMED: dict[str, tuple[str, str, str, str]] = {
         "the result of a call after any history equals its result in a fresh process. The models are tied to the code on every run by "
         "replaying the recorded events of the real call_args / cache / _lark objects through the model, and the property itself is "
         "sampled by fresh-process permuted and 2-16-thread runs.",
-        TB + "Partial: ==/hash congruence is discharged for the concrete cnf/dnf/_merge_single_markers/parse_marker caches on coherent markers (C18), and stack purity is proved for every taint-free run of the marker model (it is false in general: stackPure_false_in_general; calls answered by a caller's frame are outside the theorem and are counted in the real traces, 0 on the unchanged tree); a first_devrelease cache keyed by version equality is proved not to be a congruence. The marker model equals the code by C07's sampling; GIL atomicity, functools.cache internals and lark thread safety are trusted; thread schedules are sampled.",
+        TB + "Partial: ==/hash congruence is discharged for the concrete cnf/dnf/_merge_single_markers/parse_marker caches on coherent markers (C18), and stack purity is proved for every taint-free run of the marker model (it is false in general: stackPure_false_in_general; calls answered by a caller's frame are outside the theorem and are counted in the real traces, 0 on the unchanged tree); a first_devrelease cache and a wildcard-text cache keyed by version equality are proved not to be congruences, one recursion stack shared by all threads is proved to interfere (`shared_stack_interferes`: a concrete 2-thread schedule), a register-on-lookup licence table keyed by the lower-cased text is proved history-dependent (`license_setdefault_not_congruent`) — the classes of the seeded changes C20-1…5, C14-3; parse_marker's top-level union call is covered (`parse_marker_stack_irrelevant`, `memo_transparent_parse_marker_untainted`). The marker model equals the code by C07's sampling; GIL atomicity, functools.cache internals and lark thread safety are trusted; thread schedules are sampled.",
         "DESIGN.md §4 C20",
     ),
 }
